@@ -4,8 +4,10 @@ usage: keep_seed.py Cxx X slug "needs..." "detected_by..." [--initially-missed "
 import json, os, shutil, sys
 pid, x, slug, needs, detected = sys.argv[1:6]
 missed = sys.argv[7] if len(sys.argv) > 7 and sys.argv[6] == "--initially-missed" else None
-src = f"/tmp/wt/{pid}/_seed/{x}"
-dst = f"/verif/seeded/{pid}-{x}-{slug}"
+root = os.environ.get("WT_ROOT", "/tmp/wt")
+tag = os.environ.get("SEED_TAG", "") + x
+src = f"{root}/{pid}/_seed/{x}"
+dst = f"/verif/seeded/{pid}-{tag}-{slug}"
 os.makedirs(dst, exist_ok=True)
 for f in ("patch.diff", "demo.py", "notes.md"):
     if os.path.exists(os.path.join(src, f)):
@@ -19,9 +21,9 @@ meta = {
     "property": pid,
     "source": "written by a fresh sub-agent that saw only the property record and a scratch worktree",
     "needs_to_manifest": needs,
-    "ran": [f"git apply patch.diff in scratch worktree /tmp/wt/{pid}",
+    "ran": [f"git apply patch.diff in scratch worktree {root}/{pid}",
             "demo.py: exit 1 with the change, exit 0 without (confirmed by tools/try_seed.sh)",
-            f"VERIF_REPO=/tmp/wt/{pid} ./check {pid} --tier quick with the change applied"],
+            f"VERIF_REPO={root}/{pid} ./check {pid} --tier quick with the change applied"],
     "detected_by": detected,
     "check_output_with_change": logs,
     "existing_test_suite_with_change": "598 passed, 1 skipped (reported by the sub-agent; re-confirmed by tools/confirm_seeds.sh where suite_confirmed is set)",
